@@ -619,6 +619,12 @@ class ExperimentPackage(StorageStructurePathResolver):
                     # VV: It's OK for the conf folder to already exist, it could have commonly used pipeline definitions
                     # in it which the flowir we're copying into the conf dir $imports
                     os.makedirs(conf_dir)
+                elif os.path.commonpath([os.path.realpath(targetPath), os.path.realpath(conf_dir)]) \
+                        != os.path.realpath(targetPath):
+                    # VV: the definition of the experiment is about to be written in the conf folder
+                    raise experiment.model.errors.PackageCreateError(
+                        ValueError("Manifest entry conf (%s) places the conf folder outside of the instance "
+                                   "directory" % manifest['conf']), targetPath, path)
                 if file_format == "dsl":
                     shutil.copyfile(path, os.path.join(conf_dir, "dsl.yaml"))
                 else:
